@@ -13,6 +13,8 @@
         graft          (tip SEL) (graft T)        insert (groups ((SEL ...) ...))      merge (t2 T)
         nni            (k n) (undo b)             k-th proposal (modulo their number), Apply (then Undo)
         nni_hold       (k n)                      Apply of the k-th proposal, the rearrangement object is KEPT
+        nni_collect    (k n)                      the k-th proposal is kept WITHOUT being applied
+        nni_apply_held                            Apply of the kept rearrangement (nothing when none / already applied)
         nni_release                               Undo of the kept rearrangement (nothing when none is alive);
                                                   the object stays alive across sort / rotate / reroot steps only
         rename         (tip SEL) (to "new")       Tree.Rename({old: new})
@@ -280,10 +282,12 @@ Definition finish (o : sexp) (origs : list utree) (nok nin nstates : nat) (tag :
 Definition b2n (b : bool) : nat := if b then 1 else 0.
 
 Definition keeps_handle (name : string) : bool :=
-  String.eqb name "sort" || String.eqb name "rotate" || String.eqb name "reroot" || String.eqb name "nni_release".
+  String.eqb name "sort" || String.eqb name "rotate" || String.eqb name "reroot" ||
+  String.eqb name "nni_apply_held" || String.eqb name "nni_release".
 
-(** [held]: a rearrangement object is alive and [t] carries the markers of Model/HistoryHold.v *)
-Fixpoint walk (o : sexp) (i : nat) (t : utree) (held : bool) (origs : list utree) (nin nstates : nat)
+(** [hs]: 0 = no rearrangement object is alive; 1 = one is kept, not applied; 2 = kept and applied;
+    when alive [t] carries the markers of Model/HistoryHold.v *)
+Fixpoint walk (o : sexp) (i : nat) (t : utree) (hs : nat) (origs : list utree) (nin nstates : nat)
          (ops steps : list sexp) {struct ops} : verdict :=
   match ops with
   | [] => match steps with
@@ -297,8 +301,8 @@ Fixpoint walk (o : sexp) (i : nat) (t : utree) (held : bool) (origs : list utree
       match get_string "op" c, get_bool "reinit" c with
       | Some name, Some re =>
         let pre := "step " ++ string_of_nat i ++ " (" ++ name ++ "): " in
-        let t := if held && negb (keeps_handle name) then strip_marks t else t in
-        let held := held && keeps_handle name in
+        let t := if negb (Nat.eqb hs 0) && negb (keeps_handle name) then strip_marks t else t in
+        let hs := if keeps_handle name then hs else 0 in
         let lenient := String.eqb name "prune" && negb (no_single t) in
         (* Model/Prune.v addresses the tips of the list taken before the first removal BY NAME.  On
            a tree without single-child inner nodes no other node can become a one-neighbour node
@@ -329,14 +333,14 @@ Fixpoint walk (o : sexp) (i : nat) (t : utree) (held : bool) (origs : list utree
                  predicted; the history goes on from the dumped tree *)
               if refused then stopped ("stop@prune:outside:unmodelled")
               else match get_tree "tree" so with
-                   | Some g => walk o (S i) g false origs nin (nstates + 1) ops' steps'
+                   | Some g => walk o (S i) g 0 origs nin (nstates + 1) ops' steps'
                    | None => VBad (pre ++ "undecodable state")
                    end
             else if unmodelled name t && negb (refused && String.eqb gstage "reinit") then
               if refused then stopped ("stop@" ++ name ++ ":unmodelled")
               else match check_state_unmodelled (pre ++ "(outside the model of this operation) ") so with
                    | inl v => v
-                   | inr (g, b) => walk o (S i) g false origs (nin + b2n b) (nstates + 1) ops' steps'
+                   | inr (g, b) => walk o (S i) g 0 origs (nin + b2n b) (nstates + 1) ops' steps'
                    end
             else
             match (if re then reinit t else Ok tt) with
@@ -347,25 +351,36 @@ Fixpoint walk (o : sexp) (i : nat) (t : utree) (held : bool) (origs : list utree
               if refused && String.eqb gstage "reinit"
               then VCorr (pre ++ "the implementation refuses ReinitIndexes: " ++ gerr)
               else
-              let model : option (res utree * bool * option (res utree)) :=
+              let model : option (res utree * nat * option (res utree)) :=
                   if String.eqb name "nni_hold" then
                     k <- get_nat "k" c ;;
                     Some (match hold_apply k t with
-                          | Ok (Some tm) => (Ok tm, true, None)
-                          | Ok None => (Ok t, false, None)
-                          | Err m => (Err m, false, None)
+                          | Ok (Some tm) => (Ok tm, 2, None)
+                          | Ok None => (Ok t, 0, None)
+                          | Err m => (Err m, 0, None)
                           end)
+                  else if String.eqb name "nni_collect" then
+                    k <- get_nat "k" c ;;
+                    Some (match hold_collect k t with
+                          | Ok (Some tm) => (Ok tm, 1, None)
+                          | Ok None => (Ok t, 0, None)
+                          | Err m => (Err m, 0, None)
+                          end)
+                  else if String.eqb name "nni_apply_held" then
+                    (* Apply of an applied rearrangement does nothing *)
+                    Some (if Nat.eqb hs 1 then (held_apply t, 2, None) else (Ok t, hs, None))
                   else if String.eqb name "nni_release" then
-                    Some (if held then
+                    (* Undo of a rearrangement that was not applied does nothing *)
+                    Some (if Nat.eqb hs 2 then
                             match hold_undo t with
-                            | Ok (Some t') => (Ok t', false, None)
-                            | Ok None => (Ok t, false, Some (Err "unmodelled"))
-                            | Err m => (Err m, false, None)
+                            | Ok (Some t') => (Ok t', 0, None)
+                            | Ok None => (Ok t, 0, Some (Err "unmodelled"))
+                            | Err m => (Err m, 0, None)
                             end
-                          else (Ok t, false, None))
+                          else (Ok (strip_marks t), 0, None))
                   else
                     op <- dec_op name t c so ;;
-                    Some (run_op op t, held,
+                    Some (run_op op t, hs,
                           match op with ONni k true => Some (nni_applied k t) | _ => None end) in
               match model with
               | None => VBad (pre ++ "undecodable operation")
@@ -383,10 +398,10 @@ Fixpoint walk (o : sexp) (i : nat) (t : utree) (held : bool) (origs : list utree
                     if refused then stopped ("stop@nni_release:unmodelled")
                     else match check_state_unmodelled (pre ++ "(Undo after a re-rooting into the moved clade) ") so with
                          | inl v => v
-                         | inr (g, b) => walk o (S i) g false origs (nin + b2n b) (nstates + 1) ops' steps'
+                         | inr (g, b) => walk o (S i) g 0 origs (nin + b2n b) (nstates + 1) ops' steps'
                          end
                   else
-                  let t' := if held' then strip_marks tm' else tm' in
+                  let t' := if Nat.eqb held' 0 then tm' else strip_marks tm' in
                   if refused then VCorr (pre ++ "the implementation refuses: " ++ gerr ++ " / model: " ++ show_utree t')
                   else
                   (* the tree the copy was taken from *)
@@ -456,7 +471,7 @@ Definition judge (c o : sexp) : verdict :=
            oracle holds of it (enumerations, text) *)
         match check_state "start: " false t s0 with
         | inl v => v
-        | inr b => walk o 0 t false [] (b2n b) 1 ops steps
+        | inr b => walk o 0 t 0 [] (b2n b) 1 ops steps
         end
       end
     | _, _, _ => VBad "undecodable case or observation"
